@@ -663,3 +663,112 @@ theorem col_rt (cfg : Cfg) (hcap : cfg.cap = none) : ∀ (c : Col) (r : Bytes), 
 
 end Col
 end Model
+
+namespace Model
+namespace Col
+open Parser
+
+/-! ### stability of the column decoders (C07 / C08) -/
+
+theorem decFixedRows_stable (cfg : Cfg) (w rows : Nat) : Stable (decFixedRows cfg w rows) := by
+  unfold decFixedRows
+  split
+  · exact Stable.pure _
+  · exact Stable.bind (Stable.alloc _ _) fun _ => Stable.bind (Stable.take _) fun _ => Stable.pure _
+
+theorem decStrRows_stable (cfg : Cfg) : ∀ rows, Stable (decStrRows cfg rows)
+  | 0 => Stable.pure _
+  | n + 1 => by
+    unfold decStrRows
+    exact Stable.bind Stable.strLen fun len => Stable.bind (Stable.guard _ _) fun _ =>
+      Stable.bind (Stable.alloc _ _) fun _ => Stable.bind (Stable.take _) fun s =>
+      Stable.bind (decStrRows_stable cfg n) fun rest => Stable.pure _
+
+theorem decU64s_stable (cfg : Cfg) (rows : Nat) : Stable (decU64s cfg rows) := by
+  unfold decU64s
+  exact Stable.bind (decFixedRows_stable cfg 8 rows) fun _ => Stable.pure _
+
+theorem checkRows_stable (cfg : Cfg) (n : Nat) : Stable (checkRows cfg n) := by
+  unfold checkRows
+  split
+  · exact Stable.fail _
+  · split
+    · exact Stable.fail _
+    · exact Stable.pure _
+
+theorem scalarDec_stable (cfg : Cfg) (t : Ty) (rows : Nat) : Stable (scalarDec cfg t rows) := by
+  cases t <;> simp only [scalarDec]
+  case str => exact decStrRows_stable cfg rows
+  case uuid => exact Stable.bind (decFixedRows_stable cfg 16 rows) fun _ => Stable.pure _
+  case fixed w k => exact decFixedRows_stable cfg w rows
+  case bool => exact decFixedRows_stable cfg 1 rows
+  all_goals exact Stable.fail _
+
+theorem decCol_stable (cfg : Cfg) : ∀ (t : Ty) (rows : Nat), Stable (decCol cfg t rows) := by
+  intro t
+  induction t with
+  | fixed w k => intro rows; exact Stable.bind (decFixedRows_stable cfg w rows) fun _ => Stable.pure _
+  | bool =>
+    intro rows
+    exact Stable.bind (decFixedRows_stable cfg 1 rows) fun _ => Stable.bind (Stable.guard _ _) fun _ => Stable.pure _
+  | uuid => intro rows; exact Stable.bind (decFixedRows_stable cfg 16 rows) fun _ => Stable.pure _
+  | str => intro rows; exact Stable.bind (decStrRows_stable cfg rows) fun _ => Stable.pure _
+  | nothing =>
+    intro rows
+    simp only [decCol]
+    split
+    · exact Stable.pure _
+    · exact Stable.bind (Stable.alloc _ _) fun _ => Stable.bind (Stable.take _) fun _ => Stable.pure _
+  | enumStr w table =>
+    intro rows
+    simp only [decCol]
+    refine Stable.bind (decFixedRows_stable cfg w rows) fun rs => ?_
+    split
+    · exact Stable.pure _
+    · exact Stable.fail _
+  | arr t ih =>
+    intro rows
+    exact Stable.bind (decU64s_stable cfg rows) fun offs => Stable.bind (checkRows_stable cfg _) fun size =>
+      Stable.bind (Stable.guard _ _) fun _ => Stable.bind (ih size) fun d => Stable.pure _
+  | nullable t ih =>
+    intro rows
+    exact Stable.bind (decFixedRows_stable cfg 1 rows) fun ns => Stable.bind (ih rows) fun v => Stable.pure _
+  | lc t _ =>
+    intro rows
+    simp only [decCol]
+    split
+    · exact Stable.pure _
+    · refine Stable.bind (Stable.le 8) fun mt => Stable.bind (Stable.guard _ _) fun _ =>
+        Stable.bind (Stable.guard _ _) fun _ => Stable.bind (Stable.le 8) fun ir =>
+        Stable.bind (checkRows_stable cfg _) fun indexRows =>
+        Stable.bind (scalarDec_stable cfg t indexRows) fun dict => Stable.bind (Stable.le 8) fun kr =>
+        Stable.bind (checkRows_stable cfg _) fun _ =>
+        Stable.bind (decFixedRows_stable cfg _ rows) fun ks => Stable.bind (Stable.guard _ _) fun _ => ?_
+      split
+      · exact Stable.pure _
+      · exact Stable.fail _
+  | map k v ihk ihv =>
+    intro rows
+    simp only [decCol]
+    split
+    · exact Stable.pure _
+    · exact Stable.bind (decU64s_stable cfg rows) fun offs => Stable.bind (checkRows_stable cfg _) fun count =>
+        Stable.bind (Stable.guard _ _) fun _ => Stable.bind (ihk count) fun ks =>
+        Stable.bind (ihv count) fun vs => Stable.pure _
+  | pair a b iha ihb =>
+    intro rows
+    exact Stable.bind (iha rows) fun x => Stable.bind (ihb rows) fun y => Stable.pure _
+  | unit => intro rows; exact Stable.pure _
+
+theorem decState_stable : ∀ (t : Ty), Stable (decState t) := by
+  intro t
+  induction t with
+  | arr t ih => exact ih
+  | nullable t ih => exact ih
+  | lc t _ => exact Stable.bind (Stable.le 8) fun _ => Stable.guard _ _
+  | map k v ihk ihv => exact Stable.bind ihk fun _ => ihv
+  | pair a b iha ihb => exact Stable.bind iha fun _ => ihb
+  | _ => exact Stable.pure _
+
+end Col
+end Model
